@@ -89,6 +89,8 @@ def _drop_ops(spec, ti, drop):
     for i, op in enumerate(prog):
         if op.get("op") in ("danger", "at_dist") and op["fire"] in drop:
             drop.add(i)
+        if op.get("op") == "reread" and op["src"] in drop:
+            drop.add(i)
     # a calculator's new_calc must stay if a kept op uses it
     used = {op.get("calc") for i, op in enumerate(prog) if i not in drop and op.get("op") in ("fire", "zero", "elev", "fire_tmp")}
     for i, op in enumerate(prog):
@@ -104,6 +106,8 @@ def _drop_ops(spec, ti, drop):
     for op in new:
         if op.get("op") in ("danger", "at_dist"):
             op["fire"] = remap[op["fire"]]
+        if op.get("op") == "reread":
+            op["src"] = remap[op["src"]]
     s["programs"][ti] = new
     nf = []
     for f in s.get("faults", []):
